@@ -83,6 +83,14 @@ def step (tbl : Array SpD) (stack : List (Impl C)) (tok : String) : Option (List
       some (.leaf (.scaling S c) :: st)
   | ["zero", d, r], st => do some (.leaf (.zero (← sp d) (← sp r)) :: st)
   | ["nonlin", d, r], st => do some (.leaf (.nonlin (← sp d) (← sp r) id) :: st)
+  | ["opq", re, d, r, mf, mg], st => do
+      -- unmodelled operator given by the matrices of its action and of its coded adjoint
+      let re ← (if re = "1" then some true else if re = "0" then some false else none)
+      let D ← sp d; let R ← sp r
+      let Mf ← parseMat mf; let Mg ← parseMat mg
+      let f : El C → El C := fun x _ i => sumTo (D.n 0) fun k => Mf i k * x 0 k
+      let g : El C → El C := fun y _ i => sumTo (R.n 0) fun k => Mg i k * y 0 k
+      some (.leaf (.opaque re D R f g) :: st)
   | ["mul", d, r, v], st => do
       let v ← parseVec (← getSp tbl d) v
       some (.leaf (.multiply (← sp d) (← sp r) v) :: st)
@@ -133,7 +141,8 @@ def step (tbl : Array SpD) (stack : List (Impl C)) (tok : String) : Option (List
   | _, _ => none
 
 def spSig (S : Space C) : String :=
-  (if S.real then "r:" else "c:") ++ showNatList ((List.range S.m).map S.n)
+  (if S.real then "r:" else "c:") ++ showNatList ((List.range S.m).map S.n) ++ ":w=" ++
+    showCList ((List.range S.m).flatMap fun j => (List.range (S.n j)).map fun i => S.W j i)
 
 /-- real-coordinate unit vectors of a space: entry (j,i) times 1 (and times I if complex) -/
 def basis (S : Space C) : List (El C) :=
